@@ -33,11 +33,21 @@ type Result struct {
 
 // Run writes perWriter[w] from goroutine w through codecs (pipeline order) on a channel of the given mode.
 func Run(mode mon.Mode, queue int, codecs []netty.Handler, perWriter [][]netty.Message) Result {
+	counts := make([]int, len(perWriter))
+	for w := range perWriter {
+		counts[w] = len(perWriter[w])
+	}
+	return RunGen(mode, queue, codecs, counts, func(w, i int) netty.Message { return perWriter[w][i] }, nil)
+}
+
+// RunGen is Run with every message produced just before it is written (gen, called on the writer's goroutine) and an
+// optional hook called on the same goroutine right after the Write call has returned (e.g. to reuse the caller's buffer).
+func RunGen(mode mon.Mode, queue int, codecs []netty.Handler, counts []int, gen func(w, i int) netty.Message, after func(w, i int)) Result {
 	probe := &passProbe{}
 	hs := append([]netty.Handler{probe}, codecs...)
 	rig := mon.NewRig(mon.RigOpts{Mode: mode, Queue: queue, Handlers: hs, QuietTail: true, NoHooks: true})
 	defer rig.Dispose()
-	W := len(perWriter)
+	W := len(counts)
 	var first int32
 	stalled := int32(0)
 	rig.T.OnOp = func(kind string, phase int) {
@@ -61,8 +71,11 @@ func Run(mode mon.Mode, queue int, codecs []netty.Handler, perWriter [][]netty.M
 		wg.Add(1)
 		go func(w int) {
 			defer wg.Done()
-			for _, m := range perWriter[w] {
-				rig.Ch.Write(m)
+			for i := 0; i < counts[w]; i++ {
+				rig.Ch.Write(gen(w, i))
+				if after != nil {
+					after(w, i)
+				}
 			}
 		}(w)
 	}
